@@ -181,6 +181,19 @@ def main():
         if want == "Reject":
             if got != "Reject":
                 bad("MixedUnitsRejected:%s%s" % (op, ratio_side), dict(case=c, got=got))
+            elif op in ("Add", "Sub", "MinElem", "DivFood"):
+                # ... whichever nutrients are counted: units are units
+                for inc_f, inc_p in ((False, False), (True, False)):
+                    Food.conversions.set_nutrition_requirements(2100, 47, 51, inc_f, inc_p, 1e7)
+                    try:
+                        with np.errstate(all="ignore"):
+                            apply_op(Food, op, mk(Food, c["x"]), mk(Food, c["y"]))
+                        bad("MixedUnitsRejected:%s:flags-off" % op, dict(case=c, flags=[inc_f, inc_p]))
+                    except AssertionError:
+                        pass
+                    except BaseException as ex:  # noqa
+                        bad("UnexpectedError:%s:flags-off" % op, dict(case=c, exc=repr(ex)[:100]))
+                Food.conversions.set_nutrition_requirements(2100, 47, 51, True, True, 1e7)
             continue
         if got == "Reject" and c.get("mayRefuse"):
             rep["refused_named_limitation"] = rep.get("refused_named_limitation", 0) + 1
@@ -196,6 +209,26 @@ def main():
             bad("Shape:%s" % op, dict(case=c, got=got, want=want))
         elif not close(got["n"], want["n"]):
             bad("Numbers:%s" % op, dict(case=c, got=got, want=want))
+    # the unary predicates near their numeric boundaries: a single value and the one-month series of it must agree
+    for inc_f in (False, True):
+        for inc_p in (False, True):
+            Food.conversions.set_nutrition_requirements(2100, 47, 51, inc_f, inc_p, 1e7)
+            for v in (6e-10, 4e-10, 1e-9, -6e-10, 6e-4, 4e-4, 0.0, 1e-12):
+                for which in range(3):
+                    nums = [0.0, 0.0, 0.0]
+                    nums[which] = v
+                    sc = Food(nums[0], nums[1], nums[2])
+                    se = Food(np.array([nums[0]]), np.array([nums[1]]), np.array([nums[2]]))
+                    for name, args in [(n_, ()) for n_ in UN_PREDS] + [("all_equals_zero", (3,))]:
+                        try:
+                            a_, b_ = bool(getattr(sc, name)(*args)), bool(getattr(se, name)(*args))
+                        except BaseException as ex:  # noqa
+                            bad("ScalarEqualsOneMonthSeries:%s:exception" % name, dict(v=v, exc=repr(ex)[:100]))
+                            continue
+                        rep["compares"] += 1
+                        if a_ != b_:
+                            bad("ScalarEqualsOneMonthSeries:%s:boundary" % name, dict(value=v, nutrient=which, flags=[inc_f, inc_p], scalar=a_, series=b_))
+    Food.conversions.set_nutrition_requirements(2100, 47, 51, True, True, 1e7)
     json.dump(rep, open(sys.argv[2], "w"))
 
 
